@@ -171,3 +171,88 @@ def shrink_within_budget(fails, make, witness_of):
         if f is not None:
             out.append(f)
     return out
+
+
+# ------------------------------------------------------------------ hangs of the code under test (env.guard)
+def hang_failures(limit=5):
+    """Failures for the calls into the code under test that gave no result within the deadline (side file written
+    by env.guard in whichever process saw them)."""
+    try:
+        with open(env.hang_log()) as fh:
+            recs = [json.loads(ln) for ln in fh if ln.strip()]
+    except OSError:
+        return [], 0
+    root = env.scratch()
+    out, seen = [], set()
+    for r in sorted(recs, key=lambda r: len(canon(r))):
+        # scratch paths differ from run to run: name them $S1, $S2 so that the witness is stable
+        txt = json.dumps(r, default=str)
+        for i, d in enumerate(sorted(r.get("scratch_dirs", {}), key=len, reverse=True)):
+            txt = txt.replace(d, f"$S{i}")
+        txt = txt.replace(root, "$SCRATCH")
+        w = json.loads(txt)
+        f = Failure("hang", w, expected="a result", observed="no result within the watchdog deadline (endless loop or runaway computation)",
+                    note="replay: ./check replay <this file> rebuilds the files and repeats the call under the watchdog")
+        if f.key() not in seen:
+            seen.add(f.key())
+            out.append(f)
+    return out[:limit], len(recs)
+
+
+def replay_hang(w):
+    """Repeat the recorded call under the watchdog; {'violates': True} if it hangs again."""
+    import shutil
+
+    from codebasin import CodeBase, config, file_parser, finder, platform, preprocessor, report
+
+    base = env.fresh_dir("hang")
+    sub = {}
+    for i, (d, snap) in enumerate(sorted(w.get("scratch_dirs", {}).items())):
+        real = os.path.join(base, f"s{i}")
+        sub[d] = real
+        for rel, text in snap["files"].items():
+            p = os.path.join(real, rel)
+            os.makedirs(os.path.dirname(p), exist_ok=True)
+            with open(p, "w") as fh:
+                fh.write(text)
+        for rel, tgt in snap.get("links", {}).items():
+            p = os.path.join(real, rel)
+            os.makedirs(os.path.dirname(p), exist_ok=True)
+            os.symlink(tgt, p)
+
+    def unq(x):
+        t = json.dumps(x)
+        for d, real in sorted(sub.items(), key=lambda kv: -len(kv[0])):
+            t = t.replace(d, real)
+        return json.loads(t)
+
+    call = w["call"]
+    try:
+        if call == "Lexer.tokenize":
+            preprocessor.Lexer(w["string"]).tokenize()
+        elif call == "ArgumentParser.parse_args":
+            config.ArgumentParser(w["compiler"]).parse_args(list(w["argv"]))
+        elif call in ("MacroExpander.expand", "ExpressionEvaluator.evaluate"):
+            p = platform.Platform("p", "/")
+            for n, m in w.get("macros", {}).items():
+                mm = preprocessor.macro_from_definition_string(m if "=" in m else f"{n}={m}")
+                p.define(mm.name, mm)
+            toks = preprocessor.MacroExpander(p).expand(preprocessor.Lexer(w["tokens"]).tokenize())
+            if call.startswith("Expr"):
+                preprocessor.ExpressionEvaluator(toks).evaluate()
+        elif call == "find":
+            cbd = unq(w["codebase"])
+            cfg = unq(w["configuration"])
+            finder.find(cbd["directories"][0], CodeBase(*cbd["directories"], exclude_patterns=cbd["exclude_patterns"]), cfg)
+        elif call == "FileParser.parse_file":
+            path = unq(w["args"][-1])
+            file_parser.FileParser(path).parse_file()
+        else:
+            return {"violates": None, "note": f"no automatic replay for {call}; the witness holds the arguments and files"}
+    except env.Hang as e:
+        return {"violates": True, "observed": str(e)}
+    except Exception as e:  # noqa
+        return {"violates": False, "observed": f"returned with {type(e).__name__}: {e}"}
+    finally:
+        shutil.rmtree(base, ignore_errors=True)
+    return {"violates": False, "observed": "the call returned"}
